@@ -230,6 +230,18 @@ def selftest(pid, mod):
     if not os.path.exists(idx):
         return {'entries': 0}
     entries = [e for e in json.load(open(idx)) if e['property'] == pid and e.get('status') == 'fires']
+    # all reverted fixes and hand mutants, and a sample of at most SELFTEST_SEEDS of the independently seeded changes, drawn by
+    # VERIF_SEED (every fresh scratch tree costs a fact extraction; tools/regress.py runs all of them, in parallel)
+    import random
+    cap = int(os.environ.get('VERIF_SELFTEST_SEEDS', '12'))
+    seeds_ = [e for e in entries if e['id'].startswith('seed-')]
+    if len(seeds_) > cap:
+        rnd = random.Random(int(os.environ.get('VERIF_SEED', '0') or 0))
+        keep = {e['id'] for e in rnd.sample(sorted(seeds_, key=lambda e: e['id']), cap)}
+        skipped = len(seeds_) - cap
+        entries = [e for e in entries if not e['id'].startswith('seed-') or e['id'] in keep]
+    else:
+        skipped = 0
     res = []
     known = {k['key'] for k in load_known().get('known', [])}
     for e in entries:
@@ -264,4 +276,4 @@ def selftest(pid, mod):
             res.append({'id': e['id'], 'what': e.get('what'), 'expected_rules': e.get('expect_rules'), 'fired_rules': fired, 'result': 'fired' if hit else 'SILENT'})
         finally:
             shutil.rmtree(S, ignore_errors=True)
-    return {'entries': len(res), 'fired': sum(1 for r in res if r['result'] == 'fired'), 'details': res}
+    return {'entries': len(res), 'fired': sum(1 for r in res if r['result'] == 'fired'), 'seeded_changes_not_sampled_this_run': skipped, 'details': res}
